@@ -209,6 +209,70 @@ pub fn arch_paths<M: MArch + Paths, const N: usize>() {
     std::mem::forget(world);
 }
 
+/// Internal iteration and the other provided Iterator methods an implementation may override
+/// (fold / for_each / last / count / size_hint): same items, same pairing, same order as dense cells.
+pub fn arch_internal<M: MArch + Paths, const N: usize>() {
+    let m: Model<N> = Model::any_inv();
+    let mut world = load::<M, N>(&m);
+    let a = M::arch_mut(&mut world);
+    let (lo, hi) = a.iter().size_hint();
+    assert!(lo <= m.len && (hi.is_none() || hi.unwrap() >= m.len), "Archetype::iter().size_hint() excludes the real length");
+    let (lo, hi) = a.iter_mut().size_hint();
+    assert!(lo <= m.len && (hi.is_none() || hi.unwrap() >= m.len), "Archetype::iter_mut().size_hint() excludes the real length");
+    assert!(a.iter().count() == m.len, "Archetype::iter().count() differs from len()");
+    assert!(a.iter_mut().count() == m.len, "Archetype::iter_mut().count() differs from len()");
+    let mut idx = 0;
+    a.iter().for_each(|item| {
+        let raw = M::iter_item_raw(&item);
+        assert!(idx < m.len && raw.0 == m.handle_raw(M::ID, idx) && raw.1 == m.val[idx], "Archetype::iter().for_each does not pair dense cell i's handle with its own components");
+        idx += 1;
+    });
+    assert!(idx == m.len, "Archetype::iter().for_each visits another number of items than len()");
+    let mut idx = 0;
+    a.iter_mut().for_each(|item| {
+        let raw = M::iter_mut_item_raw(&item);
+        assert!(idx < m.len && raw.0 == m.handle_raw(M::ID, idx) && raw.1 == m.val[idx], "Archetype::iter_mut().for_each does not pair dense cell i's handle with its own components");
+        idx += 1;
+    });
+    assert!(idx == m.len, "Archetype::iter_mut().for_each visits another number of items than len()");
+    let folded = a.iter().fold(0usize, |acc, item| {
+        let raw = M::iter_item_raw(&item);
+        assert!(acc < m.len && raw.0 == m.handle_raw(M::ID, acc) && raw.1 == m.val[acc], "Archetype::iter().fold does not pair dense cell i's handle with its own components");
+        acc + 1
+    });
+    assert!(folded == m.len);
+    match a.iter().last() {
+        None => assert!(m.len == 0, "Archetype::iter().last() is None on a populated archetype"),
+        Some(item) => {
+            let raw = M::iter_item_raw(&item);
+            assert!(m.len > 0 && raw.0 == m.handle_raw(M::ID, m.len - 1) && raw.1 == m.val[m.len - 1], "Archetype::iter().last() is not the last dense cell with its own components");
+        }
+    }
+    match a.iter_mut().last() {
+        None => assert!(m.len == 0, "Archetype::iter_mut().last() is None on a populated archetype"),
+        Some(item) => {
+            let raw = M::iter_mut_item_raw(&item);
+            assert!(m.len > 0 && raw.0 == m.handle_raw(M::ID, m.len - 1) && raw.1 == m.val[m.len - 1], "Archetype::iter_mut().last() is not the last dense cell with its own components");
+        }
+    }
+    // a partially consumed iterator continues where it stopped
+    {
+        let mut it = a.iter();
+        let first_is_some = it.next().is_some();
+        assert!(first_is_some == (m.len > 0));
+        let mut idx = 1;
+        it.for_each(|item| {
+            let raw = M::iter_item_raw(&item);
+            assert!(idx < m.len && raw.0 == m.handle_raw(M::ID, idx) && raw.1 == m.val[idx], "next() followed by for_each does not continue with dense cell 1");
+            idx += 1;
+        });
+        assert!(m.len == 0 || idx == m.len);
+    }
+    cover!(m.len == N, "full archetype");
+    cover!(m.len == 0, "empty archetype");
+    std::mem::forget(world);
+}
+
 /// Slice accessors: lengths == len, cell i of every column belongs to dense entity i.
 pub fn slice_paths<const N: usize>() {
     let m: Model<N> = Model::any_inv();
@@ -342,5 +406,9 @@ harness! { fn c06_iter_other_typed_1_3() unwind(5) { iter_single::<1, 3>(3) } }
 harness! { fn c06_arch_iter_tri_3() unwind(8) { arch_paths::<Tri, 3>() } }
 harness! { fn c06_arch_iter_other_3() unwind(8) { arch_paths::<Other, 3>() } }
 harness! { fn c06_arch_iter_tri_4() unwind(8) { arch_paths::<Tri, 4>() } }
+harness! { fn c06_arch_iter_zf_3() unwind(8) { arch_paths::<crate::worlds::wzf::ZfM, 3>() } }
+harness! { fn c06_arch_internal_tri_3() unwind(8) { arch_internal::<Tri, 3>() } }
+harness! { fn c06_arch_internal_other_2() unwind(8) { arch_internal::<Other, 2>() } }
+harness! { fn c06_arch_internal_zf_3() unwind(8) { arch_internal::<crate::worlds::wzf::ZfM, 3>() } }
 harness! { fn c06_slices_tri_3() unwind(5) { slice_paths::<3>() } }
 harness! { fn c06_slices_tri_4() unwind(6) { slice_paths::<4>() } }
